@@ -538,7 +538,7 @@ func runPackCase(c *PackCase, work string, rng *Rng, ignoreText string, hasOut b
 				vs = append(vs, viol("C02", "Pack followed by Unpack fails: "+up.Err, sig...))
 			}
 		}
-		if up.Err == "" && !c.Deref {
+		if up.Err == "" && !c.Deref && !emptyViaLink {
 			after := snapshot(filepath.Join(R, "w/out"))
 			vs = append(vs, compareRoundTrip(srcTree, all, after, useIgnore, ref)...)
 		}
